@@ -30,7 +30,9 @@ def _doc():
                                       # characters str.splitlines() treats as line boundaries, inside one comment line
                                       ":type names: list[str]", "usage: cmd [opt]", "ends with a hash #", "KEYS[<n>]", "opens [", "low\tonly -Wall", "  col1\tcol2\t\tcol3", "Form\x0cfeed inside", "Next\x85line char", "Line\u2028separator and\u2029paragraph", "Vt\x0band fs\x1cgs\x1d"]))
     return st.fixed_dictionaries({"lines": st.lists(line, max_size=5), "form": st.sampled_from(["leader", "leader", "leader", "bare"]),
-                                  "mpos": st.integers(0, 8)})
+                                  "mpos": st.integers(0, 8),
+                                  "opener": st.sampled_from([None, None, None, "Brief.  Two blanks and a\ttab here", "x  y"]),
+                                  "empty_bare": st.sampled_from([False, False, True])})
 
 
 def strategy(tier):
